@@ -119,7 +119,16 @@ def make_site(rng, i, depth):
 
 
 def run_one(files, style):
-    return oracles.roundtrip(files, ("create", "fix"), style)
+    return oracles.roundtrip(files, ("create", "fix"), style, expect_fail_sites=(-1,))
+
+
+# a test that runs first and whose comparison raises while the elements of a list are aligned: whatever that
+# leaves behind must not keep the later snapshots of the session from being repaired (site -1 itself keeps failing)
+POISON = (
+    "class _OnlyComparableToItself:\n    def __eq__(self, other):\n        if type(other) is not _OnlyComparableToItself:\n            raise ZeroDivisionError('cannot compare')\n        return True\n\n"
+    "    def __repr__(self):\n        return '_OnlyComparableToItself()'\n\n\n"
+    "def test_00_raising_comparison():\n    rec(-1, lambda: [_OnlyComparableToItself(), 3] == snapshot([1, 2]))\n\n\n"
+)
 
 
 def classify(files, style):
@@ -141,6 +150,9 @@ def run_shard(args):
         sites = [make_site(rng, i, depth) for i in range(rng.randint(5, 10))]
         style = "rec" if rng.random() < 0.75 else "assert"
         src, order = program.build(sites, style=style, tests=rng.randint(1, 3))
+        if style == "rec" and rng.random() < 0.15:
+            src = src.replace("def test_0():", POISON + "def test_0():", 1)
+            C["files_with_raising_comparison_first"] = C.get("files_with_raising_comparison_first", 0) + 1
         files = {"test_a.py": src}
         status, detail, res = run_one(files, style)
         C["files"] += 1
